@@ -54,3 +54,10 @@ Definition messages_of (c : rcfg) (fs : list sframe) : list event :=
 Definition verdict_of (c : rcfg) (ev : event) : verdict :=
   if c_check_utf8 c && (ev_op ev =? 1) && negb (valid_utf8 (ev_payload ev)) then VInvalid
   else VOk (ev_op ev) (ev_payload ev).
+
+(* the FIRST message of the stream is well-formed on the wire: the spec without the UTF-8 rule
+   accepts the whole stream, or at least gets as far as emitting a first message — every frame
+   up to and including the final frame of the first message passed the header rules, the size
+   limit and the RSV1 rule; whatever follows may break a rule or be cut short *)
+Definition first_message_ok (c : rcfg) (fs : list sframe) : Prop :=
+  wire_ok c fs \/ messages_of c fs <> [].
